@@ -729,6 +729,7 @@ package core
 //@   lock s.mutex
 //@   protects runtime, state
 //@   invariant [names-unique-across-kinds] forall n string :: !(has(s.externalAgents.byName, n) && has(s.internalAgents.byName, n))
+//@   invariant [registered-agents-exist] forall n string :: (has(s.externalAgents.byName, n) ==> s.externalAgents.byName[n] != nil) && (has(s.internalAgents.byName, n) ==> s.internalAgents.byName[n] != nil) && (has(s.externalAgents.byID, n) ==> s.externalAgents.byID[n] != nil) && (has(s.internalAgents.byID, n) ==> s.internalAgents.byID[n] != nil)
 
 //@ spec regWired(s *registrationServiceImpl) bool = s.mutex != nil && isInitFlow(s.initFlow) && isInvokeFlow(s.invokeFlow) && flowsDisjoint(s.initFlow.(*initFlowSynchronizationImpl), s.invokeFlow.(*invokeFlowSynchronizationImpl)) && s.externalAgents.byName != nil && s.externalAgents.byID != nil && s.internalAgents.byName != nil && s.internalAgents.byID != nil && s.externalAgents.byName != s.externalAgents.byID && s.internalAgents.byName != s.internalAgents.byID && s.externalAgents.byName != s.internalAgents.byName && s.externalAgents.byName != s.internalAgents.byID && s.externalAgents.byID != s.internalAgents.byName && s.externalAgents.byID != s.internalAgents.byID
 //@ typeinv registrationServiceImpl s
@@ -752,7 +753,7 @@ package core
 //@   ensures [name-collision] old(has(m.byName, a.Name)) ==> r0 == ErrAgentNameCollision && extMapUnchanged(m)
 //@   ensures [id-collision] !old(has(m.byName, a.Name)) && old(has(m.byID, uuidString(a.ID))) ==> r0 == ErrAgentIDCollision && extMapUnchanged(m)
 //@   ensures [inserted] !old(has(m.byName, a.Name)) && !old(has(m.byID, uuidString(a.ID))) ==> r0 == nil && has(m.byName, a.Name) && m.byName[a.Name] == a && has(m.byID, uuidString(a.ID)) && m.byID[uuidString(a.ID)] == a
-//@   ensures [others-unchanged] forall k string :: k != a.Name ==> has(m.byName, k) == old(has(m.byName, k)) && m.byName[k] == old(m.byName[k])
+//@   ensures [others-unchanged] forall k string :: (k != a.Name ==> has(m.byName, k) == old(has(m.byName, k)) && m.byName[k] == old(m.byName[k])) && (k != uuidString(a.ID) ==> has(m.byID, k) == old(has(m.byID, k)) && m.byID[k] == old(m.byID[k]))
 //@   ensures [size] r0 == nil ==> len(m.byName) == old(len(m.byName)) + 1
 //@ func (*ExternalAgentsMap).Clear
 //@   modifies m.byName, m.byID
@@ -776,7 +777,7 @@ package core
 //@   ensures [name-collision] old(has(m.byName, a.Name)) ==> r0 == ErrAgentNameCollision && intMapUnchanged(m)
 //@   ensures [id-collision] !old(has(m.byName, a.Name)) && old(has(m.byID, uuidString(a.ID))) ==> r0 == ErrAgentIDCollision && intMapUnchanged(m)
 //@   ensures [inserted] !old(has(m.byName, a.Name)) && !old(has(m.byID, uuidString(a.ID))) ==> r0 == nil && has(m.byName, a.Name) && m.byName[a.Name] == a && has(m.byID, uuidString(a.ID)) && m.byID[uuidString(a.ID)] == a
-//@   ensures [others-unchanged] forall k string :: k != a.Name ==> has(m.byName, k) == old(has(m.byName, k)) && m.byName[k] == old(m.byName[k])
+//@   ensures [others-unchanged] forall k string :: (k != a.Name ==> has(m.byName, k) == old(has(m.byName, k)) && m.byName[k] == old(m.byName[k])) && (k != uuidString(a.ID) ==> has(m.byID, k) == old(has(m.byID, k)) && m.byID[k] == old(m.byID[k]))
 //@   ensures [size] r0 == nil ==> len(m.byName) == old(len(m.byName)) + 1
 //@ func (*InternalAgentsMap).Clear
 //@   modifies m.byName, m.byID
@@ -827,16 +828,16 @@ package core
 //@   ensures r0 == len(s.externalAgents.byName) + len(s.internalAgents.byName)
 //@ func (*registrationServiceImpl).FindExternalAgentByName
 //@   modifies nothing
-//@   ensures [lookup] (found <==> has(s.externalAgents.byName, name)) && (found ==> agent == s.externalAgents.byName[name])
+//@   ensures [lookup] (found <==> has(s.externalAgents.byName, name)) && (found ==> agent == s.externalAgents.byName[name] && agent != nil)
 //@ func (*registrationServiceImpl).FindInternalAgentByName
 //@   modifies nothing
-//@   ensures [lookup] (found <==> has(s.internalAgents.byName, name)) && (found ==> agent == s.internalAgents.byName[name])
+//@   ensures [lookup] (found <==> has(s.internalAgents.byName, name)) && (found ==> agent == s.internalAgents.byName[name] && agent != nil)
 //@ func (*registrationServiceImpl).FindExternalAgentByID
 //@   modifies nothing
-//@   ensures [lookup] (found <==> has(s.externalAgents.byID, uuidString(agentID))) && (found ==> agent == s.externalAgents.byID[uuidString(agentID)])
+//@   ensures [lookup] (found <==> has(s.externalAgents.byID, uuidString(agentID))) && (found ==> agent == s.externalAgents.byID[uuidString(agentID)] && agent != nil)
 //@ func (*registrationServiceImpl).FindInternalAgentByID
 //@   modifies nothing
-//@   ensures [lookup] (found <==> has(s.internalAgents.byID, uuidString(agentID))) && (found ==> agent == s.internalAgents.byID[uuidString(agentID)])
+//@   ensures [lookup] (found <==> has(s.internalAgents.byID, uuidString(agentID))) && (found ==> agent == s.internalAgents.byID[uuidString(agentID)] && agent != nil)
 //@ func (*registrationServiceImpl).SetFunctionMetadata
 //@   modifies s.functionMetadata
 //@   ensures [stored] s.functionMetadata == metadata
